@@ -169,6 +169,28 @@ def repeated_row_overrides(rnd, pat):
     return ov
 
 
+_EMPTY = {}
+
+
+def default_row_overrides(rnd):
+    """rows that equal what a blank cart holds (all-zero pixel / map / flag rows, untouched sfx patterns with their default
+    speed, silent music patterns), placed at the first, the last and some other row of each region - also at indices where
+    the blank cart itself holds a different default (sfx pattern 0)"""
+    if 'm' not in _EMPTY:
+        from pico8.game import game
+        _EMPTY['m'] = game_memory(game.Game.make_empty_game())
+    E = _EMPTY['m']
+    ov = {}
+    for start, rowlen, nrows in ((0x0000, 64, 128), (0x2000, 128, 32), (0x3000, 128, 2), (0x3100, 4, 64), (0x3200, 68, 64)):
+        for r in {0, nrows - 1, rnd.randrange(nrows), rnd.randrange(nrows)}:
+            if rnd.randrange(4) == 0:
+                continue
+            q = rnd.choice((0, 1, nrows - 1, r))
+            for i in range(rowlen):
+                ov[start + r * rowlen + i] = E[start + q * rowlen + i]
+    return ov
+
+
 LUA_SAMPLES = [
     b'', b'x=1', b'x=1\n', b'-- t\nprint("hi")\n', b'print("\x80\x99\xff \x01\x0f")\n-- \xe9\n\xc8b=1\n',
     b's="tab\there" t=\'q\'\n\n\nz=3\n', bytes(b for b in range(16, 256) if b not in (34, 92)).join([b'x="', b'"\n']),
